@@ -376,3 +376,97 @@ def classify(ops, exp, got):
     if ops[i].startswith('F.feed') and got[i].endswith('SPIN'):
         return 'framing:eof-spin'
     return 'msg:' + ops[i].split()[0]
+
+
+# builder outputs are intermediate representations: the property constrains them only through what the other end's
+# parser makes of them (round trips below)
+CORRESPONDENCE_ONLY_OPS = ('M.hand', 'M.cards', 'M.bidmsg', 'M.cardstr', 'M.playmsg', 'M.header', 'M.teams', 'M.connect',
+                           'M.lead', 'M.alert')
+
+
+def extra_checks(ctx):
+    """independent oracle (no model involved): what one end builds, the other end's parser reads back as the original value"""
+    import random
+    from bridge_env import Bid, Card, Hands, Player, Vul
+    from bridge_env.network_bridge.client import Client
+    from bridge_env.network_bridge.server import Server
+    from bridge_env.network_bridge.socket_interface import MessageInterface
+    rng = random.Random(f'C19-oracle/{ctx.seed}/{ctx.shard}')
+    fails = []
+
+    def fail(key, detail):
+        if len(fails) < 6:
+            fails.append({'key': key, 'kind': 'counterexample', 'diff': detail})
+    P = list(Player)
+    # hands: every void pattern x sizes, every seat name and Dummy
+    for _ in range(150 if ctx.quick else 3000):
+        suits = [s for s in range(4) if rng.random() < 0.7]
+        pool = [c for c in range(52) if c // 13 in suits]
+        hand = set(rng.sample(pool, min(len(pool), rng.choice([0, 1, 5, 13, 13, 13])))) if pool else set()
+        name = rng.choice(['North', 'East', 'South', 'West', 'Dummy'])
+        ctx.count('_evals')
+        ctx.count('oracle_hands')
+        try:
+            text = f"{name}'s cards : {Server.hand_to_str({Card.int_to_card(c) for c in hand})}"
+            got, tup = Client.parse_hand(Client.parse_cards(text, name))
+            ok = {int(c) for c in got} == hand and [i for i, v in enumerate(tup) if v == 1] == sorted(hand)
+        except Exception as e:
+            ok, got = False, repr(e)
+        if not ok:
+            fail('hand-round-trip', {'hand': sorted(hand), 'name': name, 'got': str(got)[:200]})
+    # calls: all 38 x 4 seats, any case, alert suffix
+    for c in range(38):
+        for p in P:
+            bid = Bid.int_to_bid(c)
+            text = Client.create_bid_message(bid, p.formal_name)
+            variants = [text, text.upper(), text.lower(), recase(rng, text)]
+            variants += [Server.remove_alert_word(v + rng.choice([' Alert.', ' alert.', '  ALERT. ', ' Alert.  '])) for v in variants[:2]]
+            for v in variants:
+                ctx.count('_evals')
+                try:
+                    ok = MessageInterface.parse_bid(v, p.formal_name) is bid
+                except Exception:
+                    ok = False
+                if not ok:
+                    fail('call-round-trip', {'call': c, 'seat': p.name, 'text': v})
+    # cards: 52 x 4 seats x both notations x case
+    for c in range(52):
+        card = Card.int_to_card(c)
+        for p in P:
+            for body in (Client.card_str(card), str(card)):
+                text = f'{p.formal_name} plays {body}'
+                for v in (text, text.upper(), text.lower()):
+                    ctx.count('_evals')
+                    try:
+                        ok = MessageInterface.parse_card(v, p) == card
+                    except Exception:
+                        ok = False
+                    if not ok:
+                        fail('card-round-trip', {'card': c, 'seat': p.name, 'text': v})
+    # board header and own-cards messages exactly as Server.deal queues them
+    class NoBarrier:
+        def wait(self):
+            return 0
+    for _ in range(20 if ctx.quick else 300):
+        n = rng.choice([1, 2, 9, 10, 16, 99, 100, 12345])
+        dealer, vul = rng.choice(P), rng.choice(list(Vul))
+        deck = list(range(52))
+        rng.shuffle(deck)
+        hands = Hands(*[{Card.int_to_card(c) for c in deck[i * 13:(i + 1) * 13]} for i in range(4)])
+        ctx.count('_evals')
+        ctx.count('oracle_headers')
+        try:
+            import pathlib
+            srv = Server('127.0.0.1', 0, pathlib.Path('unused.json'), [])
+            srv.deal(n, dealer, vul, hands, NoBarrier())
+            for p in P:
+                header = srv.sent_message_queues[p].get_nowait()
+                own = srv.sent_message_queues[p].get_nowait()
+                if Client.parse_board(header) != (n, dealer, vul):
+                    fail('header-round-trip', {'header': header, 'want': [n, dealer.name, str(vul)]})
+                got, _ = Client.parse_hand(Client.parse_cards(own, p.formal_name))
+                if got != hands[p]:
+                    fail('own-cards-round-trip', {'seat': p.name, 'text': own})
+        except Exception as e:
+            fail('header-round-trip', {'error': repr(e)})
+    return fails
